@@ -32,6 +32,12 @@ def field_pool():
         ("DictField", {}, [{"k": 1}, {"k": 2}, {"k": 3}, {"k": 4}, {"k": 5}, {"k": 6}]),
         ("DictFieldTyped", {}, [{"k": 1}, {"k": 2}, {"k": 3}, {"k": 4}, {"k": 5}, {"k": 6}]),
         ("AnyField", {}, ["any1", 2, [3], {"x": 4}, 5.5, None]),
+        # containers nested inside the default: every level belongs to one configuration only
+        ("DictFieldNested", {}, [{"k": [i, i], "m": {"x": [i]}} for i in range(1, 7)]),
+        ("ListFieldNested", {}, [[[i], {"y": [i]}] for i in range(1, 7)]),
+        ("DictFieldTypedNested", {}, [{"k": [i, i + 1]} for i in range(1, 7)]),
+        # (a bare Field / AnyField stores a mutable constant default object itself in every configuration: an untyped field makes
+        #  no copy of anything -- caller-made aliasing, observed and not counted; C13 speaks of mutable defaults on typed fields)
     ]
 
 
@@ -66,11 +72,20 @@ def _mk(c, counter, calls):
         kw["default"] = seq[0]
     elif c["dkind"] in FACTORIES:
         def dflt():
-            v = seq[next(counter) % len(seq)]
-            calls.append(v)
+            import copy as _c
+            v = _c.deepcopy(seq[next(counter) % len(seq)])       # a factory: a fresh object per call
+            calls.append(_c.deepcopy(v))
             return v
         kw["default"] = _factory(c["dkind"], dflt)
-    if name == "ListFieldTyped":
+    if name == "DictFieldNested":
+        f = cc.DictField(**kw)
+    elif name == "ListFieldNested":
+        f = cc.ListField(**kw)
+    elif name == "DictFieldTypedNested":
+        f = cc.DictField(cc.StringField(), cc.ListField(cc.IntField()), **kw)
+    elif name == "AnyFieldNested":
+        f = cc.AnyField(**kw)
+    elif name == "ListFieldTyped":
         f = cc.ListField(cc.IntField(), **kw)
     elif name == "DictFieldTyped":
         f = cc.DictField(cc.StringField(), cc.IntField(), **kw)
@@ -140,6 +155,8 @@ def impl(c):
     counter = itertools.count()
     calls = []           # every value the callable default returned, in order (a class may evaluate it more than once per build)
     s, seq = _mk(c, counter, calls)
+    import copy as _copy
+    pristine = _copy.deepcopy(seq)          # what the schema author declared, kept apart from anything the library may touch
     d = tempfile.mkdtemp(prefix="verif_dflt_")
     path = ".".join(["lvl%d" % i for i in range(c["depth"])] + ["f"])
     out = {}
@@ -174,6 +191,38 @@ def impl(c):
         else:
             out["reset_ok"] = vr is None
         out["b_untouched"] = b[path] is vb
+        # nested containers of a default belong to ONE configuration: filling them in place in `a` must not show up in the
+        # declared default, in configuration b, in a configuration built afterwards, or after a reset
+        def innermost(v):
+            found = []
+            def walk(x):
+                if isinstance(x, dict):
+                    for y in x.values():
+                        walk(y)
+                    found.append(x)
+                elif isinstance(x, list):
+                    for y in x:
+                        walk(y)
+                    found.append(x)
+            walk(v)
+            return found
+        if "Nested" in c["field"] and c["dkind"] != "absent":
+            import copy as _cp
+            b_before = _cp.deepcopy(_plain(b[path]))
+            for inner in innermost(a[path])[:-1]:           # every container strictly inside the value
+                try:
+                    if isinstance(inner, list):
+                        inner.append(424242)
+                    else:
+                        inner["polluted"] = 424242
+                except Exception:  # noqa
+                    pass
+            out["nested_b_clean"] = _plain(b[path]) == b_before
+            out["nested_decl_clean"] = seq == pristine
+            c3 = s(key_filename=d + "/k")
+            out["nested_fresh_clean"] = "424242" not in repr(_plain(c3[path]))
+            reset_value(a, path)
+            out["nested_reset_clean"] = "424242" not in repr(_plain(a[path]))
         if c["dkind"] != "absent":
             # loading / assigning a value EQUAL to the one the field already holds (its default) still makes it user-defined
             tree = b.to_tree()
@@ -215,6 +264,10 @@ def oracle(c, obs):
         bad.append("%s: reset after a load does not restore the not-user-defined status" % what)
     if obs.get("assignsame_defined") is False:
         bad.append("%s: assigning a value equal to the default does not make the field user-defined" % what)
+    for k, txt in (("nested_b_clean", "another configuration"), ("nested_decl_clean", "the declared default"),
+                   ("nested_fresh_clean", "a configuration built afterwards"), ("nested_reset_clean", "the value after a reset")):
+        if obs.get(k) is False:
+            bad.append("%s: filling a container nested inside the default of one configuration shows up in %s" % (what, txt))
     if not obs["b_untouched"]:
         bad.append("%s: reset of one configuration touched another" % what)
     return bad
